@@ -42,6 +42,12 @@ def model(chk: Check, tier: str, prefix="C13"):
                        heap="12g" if tier == "thorough" else "6g")
     with ThreadPoolExecutor(3) as ex:
         results = list(ex.map(one, cfgs))
+    # the serial client (CfgWrite: a configuration write inside the connect attempt that may fail): instant and suspending callbacks
+    serial = (("MC_Client_serial.cfg", "MC_Client_serial_slow.cfg") if tier != "thorough" else
+              ("MC_Client_serial_thorough.cfg", "MC_Client_serial_slow_thorough.cfg"))
+    with ThreadPoolExecutor(2) as ex:
+        results += list(ex.map(one, serial))
+    cfgs = cfgs + serial
     for cfg, r in zip(cfgs, results):
         for inv in r.violated:
             viol = ""
@@ -51,6 +57,8 @@ def model(chk: Check, tier: str, prefix="C13"):
             chk.violation(f"spec/{inv}/{viol}", f"TLC: {inv} violated in MC_Client ({cfg}) {viol}", {"tlc": r.error_text(60)})
         for a in ("COpened", "COpenFailed", "RFault", "RCancelled", "CallClose", "SendFail", "CWake", "ClWake", "PGet"):
             chk.gate(tier == "thorough" or r.coverage.get(f"N2KClient.{a}", (0, 0))[0] > 0, f"MC_Client action {a} never taken in {cfg}")
+        chk.gate(tier == "thorough" or cfg not in serial or r.coverage.get("N2KClient.CCfgFail", (0, 0))[0] > 0,
+                 f"MC_Client action CCfgFail never taken in {cfg}")
         chk.gate(r.distinct > 5000, f"MC_Client/{cfg} explored only {r.distinct} states")
         tot_s += r.distinct
         tot_t += r.generated
@@ -152,9 +160,9 @@ def sessions(tier: str, seed: int, kinds=vloop.CLIENTS):
                     log, raw2 = cf.run(kind, plan, fault_injector(kind, fault, k, None, plan))
                     logs.append(log)
                     meta.append((kind, fault, refuse, "ok", f"step{k - s_conn:+d}"))
-                    # (the serial client writes a configuration packet inside its connect step; a write that fails there
-                    #  is an attempt failing after the port was opened - a step the model, shaped after the TCP clients, lacks)
-                    if fault in ("eof", "reset", "timeout") or (fault == "write-error" and kind != "waveshare"):
+                    # (the serial client writes a configuration packet inside its connect step; a write that fails there is an
+                    #  attempt failing after the port was opened: CCfgFail of the model with CfgWrite = TRUE)
+                    if fault in ("eof", "reset", "timeout", "write-error"):
                         CONF.append(("ok", cf.conformance_log(raw2), f"{kind} {fault} step{k - s_conn:+d} refuse={refuse}"))
                 if fault == "sorry":
                     continue            # the banner is sent instead of traffic, not inside a packet
@@ -229,6 +237,34 @@ def sessions(tier: str, seed: int, kinds=vloop.CLIENTS):
         log, _ = cf.run(kind, plan, fault_injector(kind, "eof", None, 60.0, plan), t_end=110.0)
         logs.append(log)
         meta.append((kind, "eof", 7, "ok", "refused seven times, then end of stream"))
+    # the serial client writes a configuration packet inside every connect attempt: a port whose first writes fail makes the
+    # attempt fail after the port was opened (1, 2, 3, 5 attempts in a row, from the start or after a fault; mixed with
+    # refusals).  Each such attempt must be followed by a growing pause, its port shut, and the session must end CONNECTED.
+    if "waveshare" in kinds:
+        for refuse in (0, 2):
+            for heal in (0.2, 0.7, 2.0, 9.0):
+                for cb in ("ok", "slow", "raise"):
+                    plan = cf.Plan(refuse=refuse, write_fail_after=0)
+
+                    def first_writes_fail(s, state, plan=plan, heal=heal):
+                        state["last_disturbance"] = heal
+                        s.at_time(heal, lambda: setattr(plan, "write_fail_after", None))
+                    log, raw = cf.run("waveshare", plan, first_writes_fail, status_cb=cb)
+                    logs.append(log)
+                    meta.append(("waveshare", "config-write", refuse, cb, f"writes fail for {heal}s"))
+                    if cb in ("ok", "slow"):
+                        CONF.append((cb, cf.conformance_log(raw), f"waveshare config-write fails for {heal}s refuse={refuse} callback={cb}"))
+            for heal in (0.3, 1.2, 4.0):
+                plan = cf.Plan(refuse=refuse)
+
+                def after_fault(s, state, plan=plan, heal=heal):
+                    fault_injector("waveshare", "eof", None, 8.0, plan)(s, state)
+                    s.at_time(7.9, lambda: setattr(plan, "write_fail_after", plan.total_writes))
+                    s.at_time(8.0 + heal, lambda: (setattr(plan, "write_fail_after", None), state.__setitem__("last_disturbance", 8.0 + heal)))
+                log, raw = cf.run("waveshare", plan, after_fault)
+                logs.append(log)
+                meta.append(("waveshare", "eof+config-write", refuse, "ok", f"writes fail for {heal}s after the fault"))
+                CONF.append(("ok", cf.conformance_log(raw), f"waveshare eof, then config-write fails for {heal}s refuse={refuse}"))
     return logs, meta
 
 
@@ -354,14 +390,18 @@ def judge(chk: Check, wd, logs, meta, prefix: str, tag: str):
 def conformance(chk: Check, wd, conf, tag: str):
     """are the recorded logs behaviours of the implementation-shaped model?  (DRIFT only)"""
     total = accepted = 0
-    for regime, cfg in (("ok", "none"), ("slow", "slow"), ("slowC", "slowC"), ("slowD", "slowD")):
-        logs = [c for c in conf if c[0] == regime]
+    jobs = [(regime, cfg, serial) for regime, cfg in (("ok", "none"), ("slow", "slow"), ("slowC", "slowC"), ("slowD", "slowD"))
+            for serial in (False, True)]          # logs of the serial client are behaviours of the model with CfgWrite = TRUE
+    for regime, cfg, serial in jobs:
+        logs = [c for c in conf if c[0] == regime and c[2].startswith("waveshare") == serial]
         if not logs:
             continue
-        inp, outp = wd / f"{tag}-conf-{regime}.json", wd / f"{tag}-conf-{regime}-out.json"
+        sfx = "-serial" if serial else ""
+        inp, outp = wd / f"{tag}-conf-{regime}{sfx}.json", wd / f"{tag}-conf-{regime}{sfx}-out.json"
         inp.write_text(json.dumps([c[1] for c in logs]))
-        r = run_tlc("Trace_ClientModel", f"Trace_ClientModel_{cfg}.cfg", env={"IN_FILE": str(inp), "OUT_FILE": str(outp)},
-                    workers=1, name=f"Trace_ClientModel-{tag}-{regime}", timeout=3000, deadlock=False, heap="3g", dfs=True)
+        r = run_tlc("Trace_ClientModel", f"Trace_ClientModel_{cfg}{'_serial' if serial else ''}.cfg",
+                    env={"IN_FILE": str(inp), "OUT_FILE": str(outp)}, workers=1, name=f"Trace_ClientModel-{tag}-{regime}{sfx}",
+                    timeout=3000, deadlock=False, heap="3g", dfs=True)
         chk.gate(not r.violated and outp.exists(), f"Trace_ClientModel failed: {r.error_text(20)}")
         res = json.loads(outp.read_text())
         for c, x in zip(logs, res):
